@@ -24,7 +24,8 @@ const (
 )
 
 type outLine struct {
-	step int
+	step int // step at which the consumer read it
+	from int // earliest step at which it can have been written (later than the last complete drain)
 	text string
 }
 
@@ -55,6 +56,8 @@ type uciSim struct {
 	quiet      int // consecutive steps without any observable change (deadlock detection)
 	lastCmd    string
 	frugal     bool // the running search cannot end by itself: do not burn evaluations on it
+	onRelease  func(tk *Task)
+	drainedAt  int // last step at which the output was read until empty
 	delivered  []string
 }
 
@@ -117,7 +120,7 @@ func (s *uciSim) consume() int {
 				return n + 1
 			}
 			n++
-			s.lines = append(s.lines, outLine{s.steps, l})
+			s.lines = append(s.lines, outLine{s.steps, s.drainedAt + 1, l})
 			if strings.HasPrefix(l, "info ") && len(s.lines) < 400 {
 				s.res.Tracef("[%d] < %s", s.steps, l)
 			}
@@ -126,6 +129,7 @@ func (s *uciSim) consume() int {
 			}
 			s.quiet = 0
 		default:
+			s.drainedAt = s.steps
 			return n
 		}
 	}
@@ -138,6 +142,9 @@ func (s *uciSim) canDeliver() bool {
 }
 
 func (s *uciSim) deliver(line string) bool {
+	// every command arrives at its own instant, so that timers started by different commands differ
+	time.Sleep(1013 * time.Nanosecond)
+	s.k.Wait()
 	select {
 	case s.in <- line:
 		s.loop = lsBusy
@@ -175,6 +182,9 @@ func (s *uciSim) releasable(tk *Task) bool {
 }
 
 func (s *uciSim) release(tk *Task, credit int) {
+	if s.onRelease != nil {
+		s.onRelease(tk)
+	}
 	switch tk.Point {
 	case "loop.idle":
 		s.loop = lsSelecting
@@ -406,3 +416,5 @@ func randomLine(t *tape.Tape, g *rules.Game, n, pReverse int) {
 		g.Moves = append(g.Moves, m)
 	}
 }
+
+func durMs(ms int) time.Duration { return time.Duration(ms) * time.Millisecond }
